@@ -52,6 +52,14 @@ def run(oc, tier, seed, model_available, escalate):
         shutil.rmtree(d, ignore_errors=True)
         P = es.gen_params(rng, small=(it % 3 != 0), erasures=None)
         P.no_fast_check = rng.random() < 0.3
+        if it % 8 == 5:
+            # directed: the syndrome check on (--no_fast_check) with each of the two pure-python codecs and the whole-file tool (whose codec
+            # object is built once and given the message size of every block per call)
+            P.tool, P.algo, P.no_fast_check = "whole", rng.choice([1, 2]), True
+            if not P.well_formed():
+                P = es.gen_params(rng, tool="whole", small=True, erasures=None)
+                P.algo, P.no_fast_check = rng.choice([1, 2]), True
+            oc.count("directed: whole-file tool, codec 1/2, --no_fast_check")
         if it == 1:
             tree = {"e1": b"", "sub/e2": b""}
         else:
